@@ -53,7 +53,10 @@ def evolve(draw, spec1, prof):
             break
         # prefer nodes that already have additions: the relative position of old and new ones matters
         rich = [x for x in nodes if x[0] == 'members' and x[3].ext]
-        pool = rich if (rich and draw(st.integers(0, 99)) < 50) else nodes
+        # ... and SETs whose marker has no addition yet: the first addition changes how the decoder walks the SET
+        bare_sets = [x for x in nodes if x[0] == 'members' and x[3].kind == 'SET' and not x[3].ext and x[3].root]
+        r_ = draw(st.integers(0, 99))
+        pool = rich if (rich and r_ < 40) else (bare_sets if (bare_sets and r_ < 65) else nodes)
         kind, mod, tname, node = pool[draw(st.integers(0, len(pool) - 1))]
         if kind == 'members':
             if node.ext is None:
